@@ -1177,7 +1177,7 @@ def proof_stage(ck):
     return ok, failing
 
 
-EXPECT_THEOREMS = 24
+EXPECT_THEOREMS = 27
 
 
 def run(ck):
@@ -1237,8 +1237,12 @@ def run(ck):
             base = []
             if rng.chance(1, 6):
                 base.append('cvt:pre:all=0')
+            lo = gen_options(rng, 'learn')
+            lo.pop('prec', None)          # unscripted run (x = 0): recomputed values would be rounded in doubles
+            if lo.get('round') != 0:
+                lo.pop('round', None)
             learn.append({'id': cid, 'stub': stub, 'm': m, 'xsm': xs, 'profile': prof, 'accept': accept, 'base_opts': base,
-                          'family': 'learn', 'opts': gen_options(rng, 'learn'), 'consistent': False})
+                          'family': 'learn', 'opts': lo, 'consistent': False})
             cid += 1
             mi += 1
         R.run_cases(learn)
@@ -1264,6 +1268,15 @@ def run(ck):
                         if not dbl_round_ok(p['xs'], o.get('round'), o.get('prec')):
                             o.pop('round', None)
                             o.pop('prec', None)
+                        elif o.get('prec') is not None or o.get('round') != 0:
+                            # the idealistic pass rounds *recomputed* values again: keep doubles exact by
+                            # sampling decimal rounding only with the realistic pass (round=0 is always exact)
+                            md = o.get('mode', 515) & 31
+                            if md:
+                                o['mode'] = md
+                            else:
+                                o.pop('round', None)
+                                o.pop('prec', None)
                     code = 0
                     if rng.chance(1, 8):
                         code = rng.choice([200, 210, 100, 300, 400])
